@@ -230,6 +230,14 @@ def symptom_key(stderr):
             fn = f.split("::")[-1] + "@" + mm.group(2)
             break
     if not fn:
+        for line in stderr.splitlines():
+            mm = re.search(r"#\d+ (.+?) /\S*include/BaseGraph/(\S+?):(\d+)", line)
+            if mm and not mm.group(1).startswith("0x"):
+                f = re.sub(r"\(.*$", "", mm.group(1))
+                f = re.sub(r"<.*>", "", f)
+                fn = f.split("::")[-1].strip() + "@" + mm.group(2)
+                break
+    if not fn:
         heads = ("directed_graph.hpp", "undirected_graph.hpp", "directed_multigraph.hpp", "undirected_multigraph.hpp", "directed_weighted_graph.hpp",
                  "undirected_weighted_graph.hpp", "fileio.hpp", "paths.hpp", "topology.hpp", "types.h", "boost_hash.hpp")
         for line in stderr.splitlines():
